@@ -38,10 +38,14 @@ NWORDS = {"quick": 400, "thorough": 5000}
 def cases(tier, seed):
     rng = gen.sub_rng(seed, ID)
     fixed = ["MDVFMKGLSKAKEGVVAAAEKTKQGVAEAAGKTKEGVLYVGSKTKEGVVHGVATVAEKTKEQVTNVGGAVVTGVTAVAQKTVEGAGSIAAATGFVKKDQLGKNEEGAPQEGILEDMPVDPDNEAYEMPSEEGYQDYEPEA",
-             "SGGTY", "KKKYKKK", "S", "STYSTYSTY", "GGGGKKEE", "EKEKEKGGS", "YGGKKEEGGT"]
+             "SGGTY", "KKKYKKK", "S", "STYSTYSTY", "GGGGKKEE", "EKEKEKGGS", "YGGKKEEGGT", "GGSSSSSG", "KKKKKGGGGGGGGGGGGGGGGGGGGS",
+             "SSGGGGG", "GSSSGGGK", "TTTGGGGE", "KGGGSSS"]
     for i in range(NWORDS[tier]):
         if i < len(fixed):
             s = fixed[i]
+        elif i % 4 == 0:
+            # length 6-9 over a small alphabet: phosphostates that are (nearly) maximally segregated live here
+            s = "".join(rng.choice("GGSSTKE") for _ in range(rng.randint(6, 9)))
         else:
             s = gen.rand_seq(rng, rng.choice(["sty_rich", "sty_rich", "idp", "polyampholyte", "uniform", "short"]), hi=60)
             if rng.random() < 0.3:
